@@ -7,6 +7,10 @@ var commonStub = []string{"Go scheduler choice (simrt cooperative scheduler, see
 var ingestStub = append([]string{"storage faults: a wrapper around LocalBackend adds latency, injected write failures and (optionally) honours context cancellation like the S3/Azure backends"}, commonStub...)
 
 var props = map[string]propCfg{
+	"C13": {Area: "backup", Level: "exploration", Quick: 25 * time.Second, Thorough: 10 * time.Minute,
+		Real:   []string{"backup.Manager (NewManager, CreateBackup, copyDataFiles, checkSkipRatio, streamBackupFile, RestoreBackup, restoreDataFiles, streamRestoreFile, SQLite/config backup+restore, manifests, GetBackup/GetProgress)", "storage.LocalBackend for data and backup storage", "go-sqlite3 WAL checkpoint"},
+		Stub:   append([]string{"remote-backend style failures by a storage.Backend wrapper over LocalBackend", "compaction/retention = a task deleting source files during the backup"}, commonStub...),
+		Assume: []string{"storage never reports success for data it did not store/return", "BackupHandler HTTP layer not driven (it only forwards to Manager and exposes GetProgress)", "S3/Azure backends not exercised"}},
 	"C08": {Area: "localfs", Level: "fault_enumeration", Quick: 25 * time.Second, Thorough: 10 * time.Minute,
 		Real:  []string{"internal/storage.LocalBackend (Write, WriteReader, AppendReader, Delete, StatFile, Read, ReadToAt, List, Exists, RemoveDirectory, ListObjects)", "internal/cluster/raft.ValidateManifestPath", "internal/edgesync validateSyncPath / validateSpokeID / NamespacedPath"},
 		Stub:  commonStub,
